@@ -625,6 +625,12 @@ func main() {
 			{Role: run5.VoluntaryExit, N: 4, Mode: run5.ByMessages, Kinds: base},
 			{Role: run5.Registration, N: 4, Mode: run5.ByMessages, Kinds: base},
 			{Role: run5.Attester, N: 7, Mode: run5.ByDecided, Kinds: base},
+			// committees of 10 and 13 (operator ids with two decimal digits take part in the quorum):
+			// the low ids are the possibly faulty ones and arrive at any time, the others deliver in
+			// id order, so that the quorum is completed by members 10, 11, ...
+			{Role: run5.VoluntaryExit, N: 10, Mode: run5.ByMessages, Kinds: reduced, Faulty: []int{1, 2}, HonestInOrder: true},
+			{Role: run5.VoluntaryExit, N: 13, Mode: run5.ByMessages, Kinds: reduced, Faulty: []int{1, 2}, HonestInOrder: true},
+			{Role: run5.Attester, N: 13, Mode: run5.ByDecided, Kinds: reduced, Faulty: []int{1, 2}, HonestInOrder: true},
 		}
 	} else {
 		for _, role := range []string{run5.Attester, run5.Proposer, run5.ProposerBlinded, run5.VoluntaryExit, run5.Registration, run5.Aggregator, run5.SyncCommittee} {
